@@ -7,11 +7,27 @@ from poly import Poly, AtomTable
 from interp import Interp, Unsupported, Panic
 from solve import Problem
 import specs
+import ringspecs
+specs.SPECS.update({k: dict(v, ring=True) for k, v in ringspecs.RINGSPECS.items()})
 
 
 class Recorder:
-    def __init__(self):
+    def __init__(self, interp=None):
         self.items = []
+        self.I = interp
+        self.assume_violated = False
+
+    def assume(self, p, lo, hi, what=""):
+        """precondition of the specification (e.g. 'the operand is a reduced scalar'): a constraint for the solver, a filter for concrete replays"""
+        from poly import DP
+        p = DP.lift(p)
+        if p.is_const():
+            if not (lo <= p.cval() <= hi):
+                self.assume_violated = True
+            return
+        self.I.tab.constraints.append((p.e, lo, hi))
+        if p.c is not p.e:
+            self.I.tab.constraints.append((p.c, lo, hi))
 
     def range(self, p, lo, hi, what):
         self.items.append(dict(kind="range", poly=p, lo=lo, hi=hi, what=what))
@@ -22,13 +38,18 @@ class Recorder:
     def equal(self, a, b, what):
         self.items.append(dict(kind="equal", poly=a - b, what=what))
 
+    def fzero(self, fpoly, what):
+        """ring-level obligation: a polynomial over GF(p) that must be identically zero after normalisation"""
+        self.items.append(dict(kind="fzero", fpoly=fpoly, what=what))
 
-def check_spec(name, sp, fns, consts, timeout_ms):
+
+def check_spec(name, sp, fns, consts, timeout_ms, cfg="fe64"):
     t0 = time.time()
     res = dict(spec=name, desc=sp.get("desc", ""), obligations=[], status="holds")
     I = Interp(fns, consts, AtomTable())
     I.generic = sp.get("generic", {})
-    R = Recorder()
+    R = Recorder(I)
+    R.cfg = cfg
     try:
         sp["fn"](I, R)
     except Unsupported as e:
@@ -44,14 +65,19 @@ def check_spec(name, sp, fns, consts, timeout_ms):
         if time.time() - t0 > budget:
             res["obligations"].append(dict(what=o["what"], kind=o["kind"], verdict="unknown", note="per-spec time budget exhausted"))
             continue
-        if o["kind"] in ("range", "overflow"):
+        if o["kind"] == "fzero":
+            r, model = P.prove_fzero(o["fpoly"])
+        elif o["kind"] in ("range", "overflow"):
             r, model = P.prove_range(o["poly"], o["lo"], o["hi"])
         elif o["kind"] == "congruent":
             r, model = P.prove_congruent(o["poly"], o["modulus"])
         else:
             r, model = P.prove_equal(o["poly"])
         entry = dict(what=o["what"], kind=o["kind"], verdict={"unsat": "proved", "sat": "counterexample", "unknown": "unknown"}.get(r, r))
-        if r == "sat":
+        if r == "sat" and o["kind"] == "fzero":
+            entry["model"] = model
+            entry["confirmed"] = "ring identity fails: non-zero residual polynomial " + str(model.get("residual"))
+        elif r == "sat":
             entry["model"] = model
             # confirm on the concrete interpreter (the abstraction may make the model spurious)
             entry["confirmed"] = confirm(sp, fns, consts, model, o)
@@ -77,12 +103,14 @@ def confirm(sp, fns, consts, model, o, only=None):
     """re-run the spec with concrete inputs; True iff the same obligation fails concretely (or the code panics)"""
     I = Interp(fns, consts, AtomTable(), env=dict(model))
     I.generic = sp.get("generic", {})
-    R = Recorder()
+    R = Recorder(I)
     try:
         sp["fn"](I, R)
     except Panic as e:
-        return "panic: %s" % e
+        return False if R.assume_violated else "panic: %s" % e
     except Unsupported as e:
+        return False
+    if R.assume_violated:
         return False
     items = [dict(kind="overflow", what="no overflow: %s [%s]" % (x["what"], x["where"]), poly=x["poly"], lo=x["lo"], hi=x["hi"]) for x in I.obligations] + R.items
     for it in items:
@@ -148,7 +176,7 @@ def main():
         if a.prop and a.prop not in sp.get("prop", []):
             continue
         try:
-            r = check_spec(name, sp, fns, consts, a.timeout_ms)
+            r = check_spec(name, sp, fns, consts, a.timeout_ms, a.cfg)
         except Exception as e:
             r = dict(spec=name, status="error", reason="%s\n%s" % (e, traceback.format_exc()[-1500:]))
         out["results"].append(r)
@@ -161,7 +189,7 @@ def main():
     if a.json:
         def clean(o):
             if isinstance(o, dict):
-                return {k: clean(v) for k, v in o.items() if k != "poly"}
+                return {k: clean(v) for k, v in o.items() if k not in ("poly", "fpoly")}
             if isinstance(o, list):
                 return [clean(x) for x in o]
             return o
